@@ -17,6 +17,8 @@ def units(tier):
         us.append(Unit(CE.CETrackEntry, {'n': n}))
     for n in (1, 2):
         us.append(Unit(CE.VDAddRRCEEntry, {'n': n}))
+    for n in (1, 2, 3):
+        us.append(Unit(CE.RemoveChildReleasesCE, {'n': n}))
     us += [Unit(RRC.RRNew, d) for d in RRC.sweep(tier)]
     # a symbolic link without a target has no representation: refused, image unchanged
     from contracts import atomic as A
